@@ -5,6 +5,7 @@
 package c11
 
 import (
+	"bytes"
 	"fmt"
 	"os"
 	"reflect"
@@ -78,6 +79,9 @@ type steady struct {
 	check func(i int) error // one call + oracle; must not write shared state
 }
 
+// zoo functions whose origin-apply goom refuses
+var refusers []*corpus.Fn
+
 func runRound(ci interface{}, s *vkit.Stats) error {
 	c := ci.(*roundCase)
 	sb := mocker.Create()
@@ -147,7 +151,7 @@ func runRound(ci interface{}, s *vkit.Stats) error {
 	total := c.Mockers + c.Callers
 	errs := make([]error, total)
 	var wg sync.WaitGroup
-	var steadyCalls, mockOps int64
+	var steadyCalls, mockOps, refusedRestubs int64
 	yieldOf := func(g int) int {
 		if len(c.Yields) == 0 {
 			return 0
@@ -212,7 +216,27 @@ func runRound(ci interface{}, s *vkit.Stats) error {
 						runtime.Gosched()
 					}
 				}
+				if g < len(refusers) && it%3 == 0 {
+					// a re-stub that goom refuses (an origin placeholder on a prologue it cannot relocate) over this goroutine's own live mock
+					z := refusers[g]
+					zrec := &corpus.Rec{Res: resultsFor(z, it)}
+					if pv := guard(func() { b.Func(z.Fn).Apply(z.MkRepl(zrec)) }); pv != nil {
+						errs[g] = fmt.Errorf("mocker %d: plain Apply on %s panicked: %v", g, z.Name, pv)
+						return
+					}
+					if pv := guard(func() { b.Func(z.Fn).Origin(z.Origin).Apply(z.MkRepl(zrec)) }); pv != nil {
+						atomic.AddInt64(&refusedRestubs, 1)
+					}
+				}
 				b.Reset()
+				if g < len(refusers) && it%3 == 0 {
+					z := refusers[g]
+					e := reflect.ValueOf(z.Fn).Pointer()
+					if live := vkit.Bytes(e, 13); !bytes.Equal(live, img.Pristine[e-img.Addr:e-img.Addr+13]) {
+						errs[g] = fmt.Errorf("mocker %d iteration %d: after a refused re-stub and its own Reset, the entry of %s reads % x (not restored)", g, it, z.Name, live)
+						return
+					}
+				}
 				for _, fn := range own {
 					before := corpus.OrigRan[fn.ID]
 					fn.Call(corpus.FormDirect, argsFor(fn, it))
@@ -294,6 +318,7 @@ func runRound(ci interface{}, s *vkit.Stats) error {
 	if w := img.WritableTextPages(); len(w) > 0 {
 		return fmt.Errorf("at quiescence a text page is %s", w[0].Perm)
 	}
+	s.ClassN("refused-restubs-over-a-live-mock", int(refusedRestubs))
 	s.ClassN("steady-calls", int(steadyCalls))
 	s.ClassN("mocker-apply-restub-reset-cycles", int(mockOps))
 	s.Class("rounds")
@@ -311,6 +336,16 @@ func TestVerifC11(t *testing.T) {
 		if f, ok := img.FuncAt(reflect.ValueOf(fn.Origin).Elem().Pointer()); ok {
 			placeholderBodies = append(placeholderBodies, vkit.Range{Lo: uintptr(f.Entry), Hi: uintptr(f.End)})
 		}
+	}
+	for _, fn := range corpus.Zoo {
+		if fn.Name == "Z016" || fn.Name == "Z007" {
+			continue
+		}
+		b := mocker.Create()
+		if pv := guard(func() { b.Func(fn.Fn).Origin(fn.Origin).Apply(fn.MkRepl(&corpus.Rec{})) }); pv != nil {
+			refusers = append(refusers, fn)
+		}
+		b.Reset()
 	}
 	p := &vkit.Prop{ID: "C11", Unit: "rounds", New: func() interface{} { return &roundCase{} },
 		Gen: func(rt *rapid.T) interface{} {
